@@ -791,7 +791,9 @@ def flavour_siblings(R, F, fn_pat, key_prefix, why, ignore=r'$^', floor=2):
         for b in range(len(f.blocks)):
             t = f.blocks[b]['t']
             if t[0] == 'switch':
-                for x in set(re.findall(r'self\.(\w+)', sym_nstr(sym(f, t[1])))):
+                # a merged boolean (`let skip = !a && !b.is_connected(); if skip`) mentions what its definitions mention
+                texts = [sym_nstr(x) for x in core.phi_alternatives(f, sym(f, t[1]))]
+                for x in set(y for tx in texts for y in re.findall(r'self\.(\w+)', tx)):
                     fields[x] += 1
         return cs, fields
     for gid, fs in sorted(groups.items()):
@@ -1118,3 +1120,78 @@ def canon(fn, text):
         if nm and nm != 'self':
             text = re.sub(r'(?<![\.\w:$])%s\b(?!\(|::)' % re.escape(nm), '$%d' % i, text)
     return text
+
+
+def family(F, fn, depth=2, with_hops=False):
+    """`fn`, its closures, and the helpers it delegates to: functions of the same crate called from these bodies that are inherent methods of
+    the same type (or, for a free function, free functions of the same module).  An extract-function / inline-function refactoring moves
+    code between the members of a family without changing behaviour, so rules that look for a site "in fn" look in the family.
+    with_hops=True returns [(body, [(caller_body, call_site | None), ..])] - the chain of calls that leads from fn to the body."""
+    out = [(fn, [])]
+    seen = {fn.id}
+
+    def self_adt(f):
+        root = f
+        # closures: use the enclosing function
+        while root.kind == 'closure' and root.parent and F.fn_opt(root.parent) is not None:
+            root = F.fn_opt(root.parent)
+        return (root.impl or {}).get('self_adt'), root
+
+    adt0, root0 = self_adt(fn)
+    mod0 = core.strip_generics(root0.id).rsplit('::', 1)[0]
+    i = 0
+    while i < len(out):
+        body, hops = out[i]
+        i += 1
+        for c in F.closures_of(body, recursive=False):
+            if c.id not in seen:
+                seen.add(c.id)
+                out.append((c, hops + [(body, None)]))
+        if len(hops) >= depth + 2:
+            continue
+        for s_ in body.sites:
+            if not s_.is_call or not s_.callee or s_.callee in seen:
+                continue
+            g = F.fn_opt(s_.callee)
+            if g is None or g.crate != fn.crate or g.kind == 'closure':
+                continue
+            gadt = (g.impl or {}).get('self_adt')
+            same = False
+            if adt0 and gadt == adt0 and not (g.impl or {}).get('trait'):
+                same = True
+            elif not adt0 and not g.impl and core.strip_generics(g.id).rsplit('::', 1)[0] == mod0:
+                same = True
+            if same:
+                seen.add(g.id)
+                out.append((g, hops + [(body, s_)]))
+    return out if with_hops else [b for b, _ in out]
+
+
+def argi(F, site, name, pos, ty=None):
+    """Index into site.args of the callee's parameter `name`; failing that the only parameter whose declared type matches `ty`; failing
+    that `pos` (the index it had when the rule was written).  Renaming or reordering the parameters of a private function must not
+    change a verdict."""
+    g = F.fn_opt(site.callee) if site.callee else None
+    if g is not None:
+        for i in range(1, g.nargs + 1):
+            if g.local_name(i) == name:
+                return i - 1
+        if ty is not None:
+            hits = [i for i in range(1, g.nargs + 1) if re.search(ty, str(g.locals[i]))]
+            if len(hits) == 1:
+                return hits[0] - 1
+    return pos
+
+
+def arg(F, site, name, pos, ty=None):
+    i = argi(F, site, name, pos, ty)
+    return site.args[i] if i < len(site.args) else None
+
+
+def param_index_ty(fn, name, idx, ty):
+    """param_index with a type fallback: by name, else the only parameter of a matching declared type, else the old position."""
+    for i in range(1, fn.nargs + 1):
+        if fn.local_name(i) == name:
+            return i
+    hits = [i for i in range(1, fn.nargs + 1) if re.search(ty, str(fn.locals[i]))]
+    return hits[0] if len(hits) == 1 else idx
